@@ -1616,6 +1616,8 @@ def run(chk, cases=None):
                     "impl": _jsonable(out), "as_coded_failures": len(a_fail["K5"]), "repaired_failures": len(r_fail["K5"]),
                     "path_differs_from_file": out["w_path"] != out["w_file"]},
                    no_failing_input=(out["w_path"] == out["w_file"] and out["w_path_exc"] == out["w_exc"]))
+    from props.c11_tie import source_tie  # source tie: the translated read_ctm / write_ctm / token conversions, run inside Coq
+    source_tie(chk, cases, [r[3] for r in results])
     if replaying:
         for c, (labels, vals, meta, out) in zip(cases, results):
             print("replay:", json.dumps(c, default=str)[:300])
